@@ -1172,7 +1172,7 @@ func TestVerifC07(t *testing.T) {
 	cases, races := 3000, 150
 	budget := 70 * time.Second
 	if tier == "thorough" {
-		cases, races = 60000, 3000
+		cases, races = 120000, 4000
 		budget = 14 * time.Minute
 	}
 	startT := time.Now()
